@@ -40,7 +40,7 @@ package decoration
 //@   tags C03,C09
 //@   requires d != nil && widthsOK(widths) && len(widths) <= 1048576
 //@   assigns nothing
-//@   ensures result.colWidths === widths && result.decor == d && result.eol == ""
+//@   ensures result.colWidths === widths && result.decor == d && result.eol == "" && 0 <= result.totalWidth && result.totalWidth <= 2305843009213693952
 //@   loop#1 invariant -1 <= rangeindex && rangeindex < len(widths) && 0 <= totalWidth && totalWidth <= 1 + len(widths) + (rangeindex + 1) * 1099511627778
 //@   loop#1 decreases len(widths) - rangeindex
 
@@ -48,7 +48,7 @@ package decoration
 //@   tags C03,C09
 //@   requires e != nil && -4611686018427387904 <= e.totalWidth && e.totalWidth <= 4611686018427387904
 //@   assigns e.totalWidth, e.eol
-//@   ensures e.eol == eol
+//@   ensures e.eol == eol && e.totalWidth == old(e.totalWidth) - len(old(e.eol)) + len(eol)
 
 //@ func (emitter).commonTemplateLine
 //@   tags C03,C09
